@@ -68,7 +68,10 @@ class SrcGen:
         self.nid += 1
         return self.nid
 
-    def cond(self):
+    def cond(self, allow_public=True):
+        if allow_public and self.rnd.random() < 0.12:
+            # a public condition (only a true one is accepted by the library): the region adds nothing to the guard
+            return self.rnd.choice(["1", "True"]), 1
         v = self.rnd.randint(0, 1) if self.rnd.random() < 0.8 else 1
         self.conds.append(v)
         self.ncond += 1
@@ -110,9 +113,44 @@ class SrcGen:
 
     def region(self, ind, depth, eff):
         r = self.rnd
-        mech = r.choice(["guarded", "guarded", "lazy", "if", "if", "while", "for"])
+        mech = r.choice(["guarded", "guarded", "lazy", "if", "if", "while", "for", "guarded_rec"])
         rid = self.fresh()
-        if mech == "guarded":
+        if mech == "guarded_rec":
+            # one guarded(cond) decorator object that is re-entered while active: a recursive function, or two functions
+            # sharing the decorator that call each other
+            c, v = self.cond()
+            e = conj(eff, v)
+            if r.random() < 0.5:
+                self.emit(ind, "@guarded(%s)" % c)
+                self.emit(ind, "def _b%d(n):" % rid)
+                self.emit(ind + 1, "__inside(%d, %d)" % (rid, e))
+                self.simple(ind + 1, e, False)
+                self.emit(ind + 1, "if n:")
+                self.emit(ind + 2, "_b%d(n - 1)" % rid)
+                self.emit(ind + 2, "__inside(%d, %d)" % (rid, e))
+                self.emit(ind + 1, "return x0 + 1")
+                call = "_b%d(%d)" % (rid, r.randint(1, 2))
+            else:
+                self.emit(ind, "_d%d = guarded(%s)" % (rid, c))
+                self.emit(ind, "@_d%d" % rid)
+                self.emit(ind, "def _p%d():" % rid)
+                self.emit(ind + 1, "__inside(%d, %d)" % (rid, e))
+                self.body(ind + 1, depth, e, False)
+                self.emit(ind + 1, "return x1")
+                self.emit(ind, "@_d%d" % rid)
+                self.emit(ind, "def _b%d():" % rid)
+                self.emit(ind + 1, "__inside(%d, %d)" % (rid, e))
+                self.emit(ind + 1, "_p%d()" % rid)
+                self.emit(ind + 1, "__inside(%d, %d)" % (rid, e))
+                self.simple(ind + 1, e, False)
+                self.emit(ind + 1, "return x0 + 1")
+                call = "_b%d()" % rid
+            self.emit(ind, "__enter(%d, 'guarded', %d)" % (rid, e))
+            self.emit(ind, "try:")
+            self.emit(ind + 1, "g%d = %s" % (rid, call))
+            self.emit(ind, "finally:")
+            self.emit(ind + 1, "__leave(%d)" % rid)
+        elif mech == "guarded":
             c, v = self.cond()
             self.emit(ind, "@guarded(%s)" % c)
             self.emit(ind, "def _b%d():" % rid)
@@ -304,12 +342,13 @@ class Monitor:
             return
         self.R.count("inside_invariants_checked")
         g = rt.guard
-        if g is None or g.value != expected:
+        gv = 1 if g is None else g.value       # no secret condition around (public conditions only): nothing guards
+        if gv != expected:
             self.problems.append(("nesting-not-conjunction", "inside region %d the effective guard value is %r, the conjunction of the enclosing conditions is %d" % (
                 rid, None if g is None else g.value, expected)))
         elif rt._ignore_errors != (self.base_ignore or expected == 0):
             self.problems.append(("ignore-mode-not-derived-from-guard", "inside region %d _ignore_errors is %r with effective guard %d" % (rid, rt._ignore_errors, expected)))
-        elif rt.LinComb.ONE is not g:
+        elif rt.LinComb.ONE is not (g if g is not None else rt.LinComb.ONE_SAFE):
             self.problems.append(("constant-one-not-guard", "inside region %d LinComb.ONE is not the guard" % rid))
 
     def leave(self, rid, bv=None):
